@@ -125,28 +125,36 @@ inductive FsOp where
 
 def dirOf (p : Str) : Str := (p.reverse.dropWhile (· ≠ '/')).reverse
 
-/-- the protocol: only a fresh temp file in the SAME directory is written; it is fsynced and
-    closed before `rename(temp, target)`; the target is never opened for writing; nothing else is
-    renamed onto the target -/
+structure PState where
+  tmp : Option Str := none   -- the temp file created by this save
+  written : Bool := false     -- at least one write went to it
+  dirty : Bool := false       -- written since the last fsync
+  synced : Bool := false      -- fsynced after its last write
+  closed : Bool := false
+  deriving Repr
+
+/-- one step of the protocol checker; `none` = violation.  The temp file may only be written,
+    fsynced, closed and finally renamed onto the target; any other operation that names it (or the
+    target) is a violation. -/
+def protoStep (target : Str) (st : PState) : FsOp → Option PState
+  | .create f =>
+    if st.tmp.isNone ∧ f ≠ target ∧ dirOf f = dirOf target then some { tmp := some f } else none
+  | .openWrite f => if f ≠ target ∧ st.tmp ≠ some f then some st else none
+  | .write f =>
+    if st.tmp = some f ∧ !st.closed then some { st with written := true, dirty := true, synced := false } else none
+  | .fsync f => if st.tmp = some f then some { st with dirty := false, synced := st.written } else some st
+  | .close f => if st.tmp = some f then some { st with closed := true } else some st
+  | .rename src dst =>
+    if dst = target then
+      (if st.tmp = some src ∧ st.written ∧ !st.dirty ∧ st.synced ∧ st.closed then some {} else none)
+    else if src = target ∨ st.tmp = some src ∨ st.tmp = some dst then none else some st
+  | .remove f => if f ≠ target ∧ st.tmp ≠ some f then some st else none
+
+/-- the protocol: only a fresh temp file in the SAME directory is written; it is fsynced after
+    its last write and closed before `rename(temp, target)`; the target is never opened for
+    writing, removed, or renamed away; nothing else is renamed onto the target -/
 def followsProtocol (target : Str) (trace : List FsOp) : Bool :=
-  let rec go : List FsOp → Option Str → Bool → Bool → Bool → Bool
-    -- state: temp file, written-since-sync, synced-at-least-once, closed
-    | [], _, _, _, _ => true
-    | .create f :: rest, none, _, _, _ => f ≠ target && dirOf f = dirOf target && go rest (some f) false false false
-    | .create _ :: _, some _, _, _, _ => false
-    | .openWrite f :: rest, tmp, d, s, c => f ≠ target && go rest tmp d s c
-    | .write f :: rest, some t, _, s, c => f = t && !c && go rest (some t) true s c
-    | .write _ :: _, none, _, _, _ => false
-    | .fsync f :: rest, some t, _, _, c => if f = t then go rest (some t) false true c else go rest (some t) false true c
-    | .fsync _ :: rest, none, d, s, c => go rest none d s c
-    | .close f :: rest, some t, d, s, _ => if f = t then go rest (some t) d s true else go rest (some t) d s false
-    | .close _ :: rest, none, d, s, c => go rest none d s c
-    | .rename src dst :: rest, some t, d, s, c =>
-        if dst = target then src = t && !d && s && c && go rest none false false false
-        else src ≠ target && go rest (some t) d s c
-    | .rename _ dst :: rest, none, d, s, c => dst ≠ target && go rest none d s c
-    | .remove f :: rest, tmp, d, s, c => f ≠ target && go rest tmp d s c
-  go trace none false false false
+  (trace.foldl (fun (st : Option PState) op => st.bind (fun s => protoStep target s op)) (some {})).isSome
 
 /-- durable-content model: each file has current data and the data that would survive a crash
     (what was there at its last fsync); `rename` is atomic and carries both along -/
